@@ -162,6 +162,14 @@ CprimSpace ==
      extra |-> {"none", "second_contradicting", "second_compatible", "child_contradicting", "used_as_property"}]
 CprimDefault == [k |-> "cprim", prim |-> "str", expr |-> "len_cmp", base |-> "std", extra |-> "none"]
 
+(* serialization settings across a hierarchy: what a class inherits from two parents, and - elsewhere in the *)
+(* model - a class without any setting that has a concrete descendant                                          *)
+SerialSpace ==
+    [k |-> {"serial"},
+     parents |-> {"none", "agreeing", "contradicting", "one_set", "child_overrides"},
+     untagged |-> {"none", "with_descendant", "with_descendant_as_property", "abstract_as_property"}]
+SerialDefault == [k |-> "serial", parents |-> "none", untagged |-> "none"]
+
 (* a docstring with an interpreted-text role: :role:`target` at some place of the model *)
 DocRefSpace ==
     [k |-> {"docref"},
@@ -203,7 +211,8 @@ Families ==
       [dom |-> PatternFuncSpace, def |-> PatternFuncDefault], [dom |-> FuncSpace, def |-> FuncDefault],
       [dom |-> InvariantSpace, def |-> InvariantDefault], [dom |-> ClassSpace, def |-> ClassDefault],
       [dom |-> EnumSpace, def |-> EnumDefault], [dom |-> CprimSpace, def |-> CprimDefault],
-      [dom |-> DocRefSpace, def |-> DocRefDefault], [dom |-> LayoutSpace, def |-> LayoutDefault]>>
+      [dom |-> DocRefSpace, def |-> DocRefDefault], [dom |-> LayoutSpace, def |-> LayoutDefault],
+      [dom |-> SerialSpace, def |-> SerialDefault]>>
 
 Templates == {Families[i].def : i \in 1..Len(Families)}
 
